@@ -52,6 +52,63 @@ def sock_calls(f, names):
     return [c for c in calls_in(f.node) if is_method_call(c, names) and path_of(recv_of(c)) in ("self._sock", "self.sock")]
 
 
+def _mode_calls(fnode):
+    out = []
+    for c in calls_in(fnode):
+        if isinstance(c.func, ast.Attribute) and c.func.attr in ("settimeout", "setblocking") and c.args:
+            a = c.args[0]
+            blocking = isinstance(a, ast.Constant) and (a.value is None if c.func.attr == "settimeout" else a.value is True)
+            out.append((c, blocking))
+        elif norm(c.func) in ("socket.setdefaulttimeout",) and c.args and not (isinstance(c.args[0], ast.Constant) and c.args[0].value is None):
+            out.append((c, False))
+        elif norm(c.func) == "socket.create_connection" and (len(c.args) > 1 or any(k.arg == "timeout" for k in c.keywords)):
+            out.append((c, False))
+    return out
+
+
+def _split_modes(fnode):
+    calls = _mode_calls(fnode)
+    if not any(not b for _, b in calls):
+        return [], []
+    g = C.build(fnode)
+    node_of = lambda c: next((m for m in g.nodes if any(x is c for x in node_calls(m))), None)
+    restores = [m for m in g.nodes for c, b in calls if b and any(x is c for x in node_calls(m))]
+    bad, good = [], []
+    for c, b in calls:
+        if b:
+            continue
+        n = node_of(c)
+        if n is None:
+            continue
+        if norm(c.func) == "socket.setdefaulttimeout":
+            bad.append((c, "sets a process-wide default timeout: every client socket created later is non-blocking with timeout"))
+        elif flow.must_follow(g, [n], restores, exits=("exit",)):
+            bad.append((c, "leaves a timeout / non-blocking mode on the socket on a normal exit (no settimeout(None) / setblocking(True) follows)"))
+        else:
+            good.append(c)
+    return bad, good
+
+
+def mode_changes(fnode):
+    return _split_modes(fnode)[0]
+
+
+def restored_changes(fnode):
+    return _split_modes(fnode)[1]
+
+
+def _fixture_hits(prog):
+    import os
+    p = os.path.join(os.path.dirname(os.path.dirname(os.path.dirname(os.path.abspath(__file__)))), "fixtures", "c08_socket_mode.py")
+    tree = ast.parse(open(p, encoding="utf-8").read())
+    hits = []
+    for cls in [n for n in tree.body if isinstance(n, ast.ClassDef)]:
+        for fn in [n for n in cls.body if isinstance(n, ast.FunctionDef)]:
+            if mode_changes(fn):
+                hits.append(f"{cls.name}.{fn.name}")
+    return hits
+
+
 def run(prog: Program, chk: Check):
     ty = Types(prog)
     chk.explanation = (
@@ -219,6 +276,32 @@ def run(prog: Program, chk: Check):
                             conv = True
             L.decide(conv, fkey(f, c), where(f, c), "inside a try converting ConnectionError to ConnectionLost",
                      f"`{norm(c)}` in {f.qual} is outside any try that converts ConnectionError into ConnectionLost")
+    # a direct `raise ConnectionLost` (outside an except handler) is justified by a short read only: fewer bytes than were
+    # requested.  An empty result is not by itself a lost connection - a zero-length request returns empty on a live socket.
+    for f in cl.methods.values():
+        directs = [n for n in walk_local(f.node) if isinstance(n, ast.Raise) and n.exc is not None and norm(n.exc.func if isinstance(n.exc, ast.Call) else n.exc).split(".")[-1] == "ConnectionLost"
+                   and not any(isinstance(a, ast.ExceptHandler) for a in ancestors(n))]
+        if not directs:
+            continue
+        fg2 = C.build(f.node)
+        fgs2 = flow.guard_states(fg2)
+        rcv = []
+        for a in walk_local(f.node):
+            if isinstance(a, ast.Assign) and len(a.targets) == 1 and isinstance(a.targets[0], ast.Name) and isinstance(a.value, ast.Call) and is_method_call(a.value, ("recv", "recv_into")) and path_of(recv_of(a.value)) == "self._sock":
+                c = a.value
+                size = c.args[0] if c.func.attr == "recv" else (c.args[1] if len(c.args) > 1 else None)
+                if size is not None:
+                    v = a.targets[0].id
+                    rcv.append(f"{v} != {norm(size)}" if c.func.attr == "recv_into" else f"len({v}) != {norm(size)}")
+        for n in directs:
+            node = next(m for m in fg2.nodes if m.ast is n)
+            okk = False
+            for goal_s in rcv:
+                if not guards.any_path_implies(fgs2.at(node), guards.parse(goal_s)):
+                    okk = True
+            L.decide(okk, fkey(f, f"direct-raise-only-on-short-read#{directs.index(n)}"), where(f, n), "raised only when a receive returned fewer bytes than requested",
+                     f"`raise ConnectionLost` in {f.qual} is not conditioned on a receive returning fewer bytes than requested (candidates: {rcv or 'none'}): "
+                     "an empty result of a zero-length request on a live connection would be reported as a lost connection")
     # short header / payload read -> ConnectionLost
     for label, node in (("header", hn),) + ((("payload", P[0]),) if len(P) == 1 else ()):
         v = path_of(node.ast.targets[0]) if isinstance(node.ast, ast.Assign) else None
@@ -242,6 +325,28 @@ def run(prog: Program, chk: Check):
                         okk = True
         L.decide(okk, fkey(rm, f"short-{label}-read"), where(rm, node.ast), f"short {label} read raises ConnectionLost",
                  f"a short {label} read (fewer bytes than requested) does not lead to ConnectionLost")
+
+    # ---- M blocking mode --------------------------------------------------------------------------------------------
+    M = chk.rule("C08-M", "the client socket is left in blocking mode: a timeout / non-blocking mode set on it is undone on every normal exit of the same function", 0,
+                 "MSG_WAITALL completes a frame only on a blocking socket; with a timeout left on it a short read of a slow frame is reported as ConnectionLost")
+    fx = _fixture_hits(prog)
+    if fx != ["Client._socket_connect"]:
+        raise AnalysisError(f"C08-M self-check: the positive example must match exactly once, matched {fx}")
+    nmode = 0
+    nscan = 0
+    for f in prog.all_functions():
+        if f.module.name not in (CLI, "pyrtma.client_base"):
+            continue
+        nscan += 1
+        if True:
+            for c, why in mode_changes(f.node):
+                nmode += 1
+                M.bad(fkey(f, c), where(f, c), f"{f.qual}: `{norm(c)}` {why}")
+            for c in restored_changes(f.node):
+                nmode += 1
+                M.ok(fkey(f, c), where(f, c), "mode change undone on every normal exit")
+    M.ok("C08-M|scan", where(rm), f"{nscan} client function(s) scanned, {nmode} socket mode change(s); the positive example in fixtures/c08_socket_mode.py matched")
+    chk.units["client_socket_mode_changes"] = nmode
 
     # ---- F subscription filter -----------------------------------------------------------------------------
     F = chk.rule("C08-F", "every return of read_message is dominated by: sub_all or not M or type in subscribed_types or (ack and type == ACK)", 2,
